@@ -2475,3 +2475,172 @@ func init() {
 }
 
 const pu2 = "blockchain.(*Push)."
+
+func init() {
+	keySym := func(id string) core.Rule {
+		return rule(id, "every key SaveBlock puts into the batch is deleted or overwritten by DelBlock", 1, func(r *Run) {
+			keysOfBatch := func(fn string, methods ...string) (map[string]bool, *core.FuncInfo) {
+				f := r.Fn(fn)
+				if f == nil {
+					return nil, nil
+				}
+				c := f.Ctx()
+				want := map[string]bool{}
+				for _, m := range methods {
+					want[m] = true
+				}
+				out := map[string]bool{}
+				ast.Inspect(f.Body(), func(x ast.Node) bool {
+					call, ok := x.(*ast.CallExpr)
+					if !ok || len(call.Args) < 1 {
+						return true
+					}
+					sel, ok := ast.Unparen(call.Fun).(*ast.SelectorExpr)
+					if !ok || !want[sel.Sel.Name] || !core.IsObj("param:0")(c, sel.X) {
+						return true
+					}
+					k := ast.Unparen(call.Args[0])
+					switch kx := k.(type) {
+					case *ast.CallExpr:
+						if fnc := core.Callee(c.Info, kx); fnc != nil {
+							out[core.ShortName(fnc)] = true
+						}
+					case *ast.Ident:
+						if o := c.Info.ObjectOf(kx); o != nil && o.Pkg() != nil && o.Parent() == o.Pkg().Scope() {
+							out[core.ShortObj(o)] = true
+						}
+					}
+					return true
+				})
+				return out, f
+			}
+			set, fs := keysOfBatch(bsm+"SaveBlock", "Set")
+			undo, fd := keysOfBatch(bsm+"DelBlock", "Delete", "Set")
+			if fs == nil || fd == nil {
+				return
+			}
+			var missing, all []string
+			for k := range set {
+				all = append(all, k)
+				if !undo[k] {
+					missing = append(missing, k)
+				}
+			}
+			sort.Strings(missing)
+			sort.Strings(all)
+			label := "blockchain.(*BlockStore).DelBlock undoes every key SaveBlock writes directly"
+			if len(missing) == 0 && len(all) >= 2 {
+				r.OK(label, r.W.Pos(fd.Node().Pos()), strings.Join(all, ", "))
+			} else {
+				r.Fail(label, r.W.Pos(fd.Node().Pos()), fmt.Sprintf("SaveBlock writes %v; DelBlock neither deletes nor overwrites %v: after a reorganisation to a shorter (heavier) branch the heights above the new tip still resolve to detached blocks", all, missing))
+			}
+		})
+	}
+	// walks lists, for the k-th parameter of f, how every loop over it (in f
+	// and in the same-package helpers it is handed to) traverses it.
+	var walks func(r *Run, f *core.FuncInfo, k int, depth int, dirs map[string]int)
+	walks = func(r *Run, f *core.FuncInfo, k int, depth int, dirs map[string]int) {
+		c := f.Ctx()
+		isList := core.IsObj(fmt.Sprintf("param:%d", k))
+		for _, lp := range core.LoopsIn(f) {
+			switch fs := lp.(type) {
+			case *ast.RangeStmt:
+				if isList(c, fs.X) {
+					dirs["front→next"]++
+				}
+			case *ast.ForStmt:
+				if fs.Init == nil {
+					continue
+				}
+				start := ""
+				ast.Inspect(fs.Init, func(x ast.Node) bool {
+					call, ok := x.(*ast.CallExpr)
+					if !ok {
+						return true
+					}
+					sel, ok := ast.Unparen(call.Fun).(*ast.SelectorExpr)
+					if !ok || !isList(c, sel.X) {
+						return true
+					}
+					if fn := core.Callee(c.Info, call); fn != nil {
+						switch core.ShortName(fn) {
+						case "container/list.(*List).Front":
+							start = "front"
+						case "container/list.(*List).Back":
+							start = "back"
+						}
+					}
+					return true
+				})
+				if start == "" {
+					continue
+				}
+				step := ""
+				if fs.Post != nil {
+					ast.Inspect(fs.Post, func(x ast.Node) bool {
+						if call, ok := x.(*ast.CallExpr); ok {
+							if fn := core.Callee(c.Info, call); fn != nil {
+								switch core.ShortName(fn) {
+								case "container/list.(*Element).Next":
+									step = "next"
+								case "container/list.(*Element).Prev":
+									step = "prev"
+								}
+							}
+						}
+						return true
+					})
+				}
+				dirs[start+"→"+step]++
+			}
+		}
+		if depth == 0 {
+			return
+		}
+		ast.Inspect(f.Body(), func(x ast.Node) bool {
+			call, ok := x.(*ast.CallExpr)
+			if !ok {
+				return true
+			}
+			fn := core.Callee(c.Info, call)
+			if fn == nil || fn.Pkg() == nil || fn.Pkg() != f.Pkg.Types {
+				return true
+			}
+			g := r.W.FuncOf(fn)
+			if g == nil || g == f {
+				return true
+			}
+			for i, a := range call.Args {
+				if isList(c, a) {
+					walks(r, g, i, depth-1, dirs)
+				}
+			}
+			return true
+		})
+	}
+	walkDir := func(id string) core.Rule {
+		return rule(id, "reorganisation: the blocks are loaded and applied walking each node list in the same direction", 2, func(r *Run) {
+			f := r.Fn(bcm + "reorganizeChain")
+			if f == nil {
+				return
+			}
+			for k, name := range []string{"detach", "attach"} {
+				dirs := map[string]int{}
+				walks(r, f, k, 2, dirs)
+				label := fmt.Sprintf("%s: every loop over the %s list walks it the same way", f.Name, name)
+				total := 0
+				for _, n := range dirs {
+					total += n
+				}
+				if len(dirs) == 1 && total >= 2 {
+					r.OK(label, r.W.Pos(f.Node().Pos()), fmt.Sprintf("%d loops, %v", total, keysOf(dirs)))
+				} else {
+					r.Fail(label, r.W.Pos(f.Node().Pos()), fmt.Sprintf("directions differ: %v — the i-th loaded block no longer belongs to the i-th node it is applied with", keysOf(dirs)))
+				}
+			}
+		})
+	}
+	extend("C26", "R26g-R26h (added after seeded changes were missed): DelBlock deletes or overwrites every key SaveBlock writes directly into the batch (height→hash, last height), so rolling back to a shorter branch leaves no height entry behind; in a reorganisation the loop that loads the blocks of a node list and the loop that applies them walk the list in the same direction.", keySym("R26g"), walkDir("R26h"))
+	extend("C25", "R25j (same rule as R26h).", walkDir("R25j"))
+	extend("C29", "R29g (same rule as R26g).", keySym("R29g"))
+}
